@@ -14,7 +14,7 @@ RULE = ("cases: (planar case, transformation in relabel (ints<->strings bijectio
 ASSUMPTIONS = ["planar metric, InMemMap; graphs <= 12 nodes, traces <= 12 points", "probabilities: 1e-9 relative (translation 1e-6)",
                "a different path (after renaming) is accepted only when the probabilities agree to 1e-12 (exact tie)"]
 TOLERANCES = {"logprob": 1e-9, "translation": 1e-6, "tie": 1e-12}
-BUDGET = {"quick": {"shards": 8, "examples": 450}, "thorough": {"shards": 16, "examples": 8000}}
+BUDGET = {"quick": {"shards": 8, "examples": 800}, "thorough": {"shards": 16, "examples": 8000}}
 
 DIST_KEYS = ("obs_noise", "obs_noise_ne", "dist_noise", "dist_noise_ne", "max_dist", "max_dist_init", "beta", "beta_ne")
 
